@@ -152,6 +152,12 @@ def bound_modules():
               ['X::<u16, i8>::A', 'X::<u16, i8>::B(-1)', 'X::<u16, i8>::C(5, 0)', 'X::<u16, i8>::D { d: (5, -1) }']),
              ('pub enum X<T> { A(#[debug(bound())] ::core::marker::PhantomData<T>), #[debug(bound(T: ::core::fmt::Debug))] B(T), C(#[debug(transparent)] T) }',
               ['X::<u16>::A(::core::marker::PhantomData)', 'X::B(7u16)', 'X::C(7u16)'])]
+    # generic parameters spelled as raw identifiers (keywords, or an ordinary name used with `r#`): the field types mention them
+    decls += [('#[allow(non_camel_case_types)] pub struct X<r#type>(pub r#type, pub Option<r#type>);', ['X(7u16, Some(8u16))']),
+              ('#[allow(non_camel_case_types)] pub enum X<r#impl, const r#N: usize> { A(r#impl), B { b: [r#impl; N] }, C(#[debug(transparent)] Option<r#impl>) }',
+               ['X::<u16, 2>::A(7)', 'X::<u16, 2>::B { b: [7, 8] }']),
+              ('pub struct X<T> { pub a: r#T, pub c: ::core::marker::PhantomData<r#T> }',
+               ['X { a: 7u16, c: ::core::marker::PhantomData }'])]
     import re as _re
     for k, (decl, vals) in enumerate(decls):
         for mode in ('attr', 'derive'):
